@@ -29,7 +29,7 @@ func runRoots(b *harness.B, share, shares int) {
 }
 
 func rootsSectors(b *harness.B) {
-	n := b.Pick(48, 1500)
+	n := b.Pick(48, 800)
 	g := newGuardRegion(sectorSize) // exactly 1024 pages: flush against both guards
 	defer g.free()
 	b.Count("guard_page_control_faults", g.controlFaults())
